@@ -14,6 +14,7 @@ import (
 	trustpolicyopts "github.com/gittuf/gittuf/experimental/gittuf/options/trustpolicy"
 	"github.com/gittuf/gittuf/internal/policy"
 	"github.com/gittuf/gittuf/internal/signerverifier/dsse"
+	"github.com/gittuf/gittuf/internal/tuf"
 	sslibdsse "github.com/gittuf/gittuf/internal/third_party/go-securesystemslib/dsse"
 	tufv01 "github.com/gittuf/gittuf/internal/tuf/v01"
 	tufv02 "github.com/gittuf/gittuf/internal/tuf/v02"
@@ -95,7 +96,7 @@ func HarnessC12RootAPI() {
 		before := store.Ref(policy.PolicyStagingRef)
 		authorised := isRoot[k]
 		var err error
-		op := verif.Concrete(verif.Choice(p+".op", 6))
+		op := verif.Concrete(verif.Choice(p+".op", 8))
 		switch op {
 		case 0:
 			err = repo.AddRootKey(ctx, signer, zz12Key(2), false, trustpolicyopts.WithRSLEntry())
@@ -123,6 +124,14 @@ func HarnessC12RootAPI() {
 			err = repo.AddTopLevelTargetsKey(ctx, signer, zz12Key(2), false, trustpolicyopts.WithRSLEntry())
 		case 4:
 			err = repo.SignRoot(ctx, signer, false, trustpolicyopts.WithRSLEntry())
+		case 6:
+			// rule-file API (the API does not check the signer here; Apply must
+			// still refuse a rule file signed by a key the root does not name)
+			err = repo.AddPrincipalToTargets(ctx, signer, policy.TargetsRoleName, []tuf.Principal{zz12Key(1)}, false, trustpolicyopts.WithRSLEntry())
+			authorised = true
+		case 7:
+			err = repo.AddDelegation(ctx, signer, policy.TargetsRoleName, "rule"+strconv.Itoa(i), []string{zz12KeyIDs[1]}, []string{"git:refs/heads/main"}, 1, false, trustpolicyopts.WithRSLEntry())
+			authorised = true
 		default:
 			err = repo.AddGlobalRuleThreshold(ctx, signer, "g"+strconv.Itoa(i), []string{"git:refs/heads/main"}, 2, false, trustpolicyopts.WithRSLEntry())
 		}
